@@ -36,7 +36,7 @@
    quantifier and are never sent to the implementation.
    PassThrough() and FadvDontNeed have no effect on the logic of cache.go at this commit and do not occur here.
    History variables (not in the code): [w_acc] (concatenation of the Writes), [r_key], [r_val] (value seen at hit time). *)
-From Coq Require Import List Arith NArith Bool.
+From Coq Require Import List Arith NArith ZArith Bool.
 From SV Require Model.Refcache.
 Import ListNotations.
 Module R := SV.Model.Refcache.
